@@ -175,6 +175,11 @@ def oracle_mpo(g, qd, opmap, L, ref_dense=None):
             m = opmap[oid]
             if any(m[a, b] != 0 and qd[a] - qd[b] != dq for a in range(d) for b in range(d)):
                 return None
+    # domain: every non-terminal node is connected in both directions (otherwise the MPO has a dangling bond)
+    for n in g.nodes.values():
+        for dd in (0, 1):
+            if not n.eids[dd] and n.nid != g.nid_terminal[dd]:
+                return None
     try:
         mpo = with_alarm(10.0, lambda: MPO.from_opgraph(qd, g, opmap, compute_nid_map=True))
     except CaseTimeout:
@@ -277,7 +282,7 @@ def search(tier, seed, hints, budget_s):
                 if chains_valid(chains, L):
                     yield case_of_chains(chains, L, oid, rng, charged)
             for _ in range(100):
-                raw, L, charged = oglib.gen_layered_graph(rng)
+                raw, L, charged = oglib.gen_layered_graph(rng, term_twin=False)
                 op = mpo_op(raw, rng, charged, d=2)
                 yield {'kind': 'graph', 'graph': raw, 'qd': op['qd'], 'opmap': op['opmap']}
     for case in gen():
